@@ -91,7 +91,15 @@ func runCheck(prop string, thorough bool, repo string, writeExpected bool) int {
 	var known []KnownFinding
 	loadJSON(filepath.Join(verifRoot, "known_findings.json"), &known)
 	expected := map[string][]string{}
-	loadJSON(filepath.Join(verifRoot, "expected_obligations.json"), &expected)
+	// the baseline of obligations that must still be generated: normally /verif's own; a check run against another tree
+	// (a scratch worktree at an older commit) may bring the baseline that belongs to that tree
+	expectedPath := filepath.Join(verifRoot, "expected_obligations.json")
+	if p := os.Getenv("VERIF_EXPECTED"); p != "" {
+		expectedPath = p
+	} else if _, err := os.Stat(filepath.Join(repo, ".verif_expected.json")); err == nil && repo != "/repo" {
+		expectedPath = filepath.Join(repo, ".verif_expected.json")
+	}
+	loadJSON(expectedPath, &expected)
 
 	vc.LoadLocalsBaseline(filepath.Join(verifRoot, "locals_baseline.json"))
 	eng, err := vc.Load(repo, pc.Packages, filepath.Join(verifRoot, "prelude"))
